@@ -39,6 +39,10 @@ type Program struct {
 	canonName      map[*types.Func]string // renamed anchor -> the name the rules know it by
 	renamed        map[string]*types.Func // pkg|recv|name of a recorded function -> the function that took its place
 	RenameNotes    []string
+	canonFull      map[*types.Func]string // renamed anchor -> its FuncName on the reviewed tree
+	canonType      map[*types.TypeName]string
+	canonField     map[*types.Var]string
+	canonObj       map[types.Object]string
 	lexer          map[*ast.FuncDecl]bool
 	funcOf         map[*ast.FuncDecl]*packages.Package
 	ssa            *ssaProgram
@@ -280,6 +284,11 @@ func recvTypeName(e ast.Expr) string {
 		case *ast.IndexExpr:
 			e = t.X
 		case *ast.Ident:
+			if curProgram != nil {
+				if o := curProgram.Info.Uses[t]; o != nil {
+					return objName(o)
+				}
+			}
 			return t.Name
 		default:
 			return ""
@@ -295,6 +304,13 @@ func FuncObj(pkg *packages.Package, fd *ast.FuncDecl) *types.Func {
 
 // FuncName renders "pkg.Func" or "pkg.(*T).m" for a declaration.
 func FuncName(pkg *packages.Package, fd *ast.FuncDecl) string {
+	if curProgram != nil && curProgram.canonFull != nil {
+		if fn, ok := curProgram.Info.Defs[fd.Name].(*types.Func); ok {
+			if full := curProgram.canonFull[fn]; full != "" {
+				return full
+			}
+		}
+	}
 	short := pkg.Types.Name()
 	if fd.Recv != nil && len(fd.Recv.List) == 1 {
 		r := recvTypeName(fd.Recv.List[0].Type)
@@ -321,7 +337,12 @@ func AllFuncs(pkg *packages.Package) []*ast.FuncDecl {
 
 // Named looks up a package-level named type.
 func (p *Program) Named(pkg *packages.Package, name string) *types.Named {
-	obj := pkg.Types.Scope().Lookup(name)
+	var obj types.Object = pkg.Types.Scope().Lookup(name)
+	if _, isT := obj.(*types.TypeName); !isT {
+		if tn := p.typeNamed(pkg, name); tn != nil {
+			obj = tn
+		}
+	}
 	if obj == nil {
 		fatalf("anchor not found: type %s.%s", pkg.PkgPath, name)
 	}
@@ -350,6 +371,13 @@ func (p *Program) Iface(pkg *packages.Package, name string) *types.Interface {
 func (p *Program) PkgVar(pkg *packages.Package, name string) *types.Var {
 	v, ok := pkg.Types.Scope().Lookup(name).(*types.Var)
 	if !ok {
+		for o, n := range p.canonObj {
+			if vv, isVar := o.(*types.Var); isVar && n == name && o.Pkg() == pkg.Types {
+				return vv
+			}
+		}
+	}
+	if !ok {
 		fatalf("anchor not found: var %s.%s", pkg.PkgPath, name)
 	}
 	return v
@@ -366,7 +394,7 @@ func (p *Program) PkgVarValue(pkg *packages.Package, name string) ast.Expr {
 			for _, s := range gd.Specs {
 				vs := s.(*ast.ValueSpec)
 				for i, n := range vs.Names {
-					if n.Name == name && i < len(vs.Values) {
+					if (n.Name == name || objName(p.Info.Defs[n]) == name) && i < len(vs.Values) {
 						return vs.Values[i]
 					}
 				}
@@ -408,7 +436,41 @@ func (p *Program) Implementers(iface *types.Interface) []types.Type {
 
 // TypeStr renders a type with short package qualifiers ("*parser.Ident").
 func TypeStr(t types.Type) string {
-	return types.TypeString(t, func(p *types.Package) string { return p.Name() })
+	s := types.TypeString(t, func(p *types.Package) string { return p.Name() })
+	// renamed unexported types are shown under their recorded names
+	for i := 0; i+1 < len(typeRenameList); i += 2 {
+		s = replaceWord(s, typeRenameList[i], typeRenameList[i+1])
+	}
+	return s
+}
+
+// replaceWord replaces occurrences of old that are not part of a longer identifier.
+func replaceWord(s, old, new string) string {
+	if !strings.Contains(s, old) {
+		return s
+	}
+	var sb strings.Builder
+	for {
+		i := strings.Index(s, old)
+		if i < 0 {
+			sb.WriteString(s)
+			return sb.String()
+		}
+		end := i + len(old)
+		before := i == 0 || !isIdentByte(s[i-1])
+		after := end == len(s) || !isIdentByte(s[end])
+		sb.WriteString(s[:i])
+		if before && after {
+			sb.WriteString(new)
+		} else {
+			sb.WriteString(old)
+		}
+		s = s[end:]
+	}
+}
+
+func isIdentByte(b byte) bool {
+	return b == '_' || b == '.' && false || '0' <= b && b <= '9' || 'a' <= b && b <= 'z' || 'A' <= b && b <= 'Z'
 }
 
 // Field returns the struct field named name of named type (or pointer to it).
